@@ -413,6 +413,12 @@ func checkC07(c *Ctx) {
 	c.R.Floor("G2.kept", 1)
 	c.R.Floor("G5.layout", 2)
 	c.R.Floor("G8.all", 2)
+	// the codecs keep nothing in package-level memory between calls
+	c.rulePureAs("E.state", []string{"efi/signature.ReadSignatureDatabase", "efi/signature.ReadSignatureList", "efi/signature.ReadSignatureData",
+		"efi/signature.WriteSignatureDatabase", "efi/signature.WriteSignatureList", "efi/signature.WriteSignatureData",
+		"efi/signature.(*SignatureList).Bytes", "efi/signature.(*SignatureDatabase).Bytes"})
+	c.R.Floor("E.state", 8)
+	c.ruleRecycle("P.recycle", func(f *ssa.Function) bool { return strings.Contains(name(f), "efi/signature.") })
 }
 
 var factHeaderSizeZero = &fact{id: "HeaderSize==0", what: "the list is accepted only with HeaderSize == 0 (so the writer-only SignatureHeader field is empty for every decoded list)",
